@@ -307,6 +307,15 @@ def confirm(rep, flagged):
         rep.add(oid, status, f"{what}; confirmed by stdin scenario `{cnd}`: {v}")
 
 
+def fallback(rep):
+    """kernels undecided: the stdin battery is run; only a failing concrete oracle is reported"""
+    for n, v, r in concrete_battery(common.native_build("default"), ()):
+        if v:
+            st = rep.violation({"obligation": "battery-after-undecided-kernel", "scenario": n}, {"what": "kernel undecided; stdin battery", "scenario": n, "observed": v, "flags": [],
+                                                                                                  "run": clireplay.describe(r)})
+            rep.add(f"battery/{n}", st, v)
+
+
 def replay(path):
     import json
     d = json.load(open(path))
